@@ -74,7 +74,10 @@ def nestle_double(result=None):
         dx = x - mean
         wsum = np.sum(w)
         w2sum = np.sum(w * w)
-        cov = wsum / (wsum * wsum - w2sum) * np.einsum('i,ij,ik', w, dx, dx) if x.dtype != object else None
+        if x.dtype != object:
+            cov = wsum / (wsum * wsum - w2sum) * np.einsum('i,ij,ik', w, dx, dx)
+        else:
+            cov = np.zeros((x.shape[1], x.shape[1]))       # covariance is not examined
         return mean, cov
     ns.mean_and_cov = mean_and_cov
     return ns
@@ -138,7 +141,7 @@ def make_model(coef, const, limit=None, names=('a', 'b', 'c'), bounds=None):
             spec = const
             for k in range(len(coef)):
                 spec = spec + self.p[k] * coef[k]
-            return self.native, spec, None, None
+            return self.native, spec, np.zeros((1, len(self.native))), None
 
         def compute_error(self, samples, wngrid=None, binner=None):
             return {}, {}
